@@ -119,6 +119,15 @@ pub fn c11(ctx: &mut Ctx) {
             jobs.push(job(c, Expect::Accept, "c11-case-and-spaces", must_keep));
         }
         {
+            // the signed-header *listing* in another order on the wire (the canonical form is sorted)
+            let mut sp2 = Spelling::plain();
+            sp2.unsorted_signed_list = true;
+            for _ in 0..2 {
+                let s2 = sign_and_spell(&l, &mut rng, &sp2, now);
+                jobs.push(job(s2.case, Expect::Accept, "c11-listing-order", must_keep));
+            }
+        }
+        {
             // reorder differently named headers (stable per name)
             let mut c = s.case.clone();
             let mut names: Vec<String> = Vec::new();
@@ -539,6 +548,24 @@ pub fn c13(ctx: &mut Ctx) {
     ctx.rep.add("exhaustive.kinds", 12);
     run_tris(ctx, tris);
 
+    // (a') a folded form whose merged URI cannot be represented: a client error (400), never a 500
+    {
+        let mut jobs = Vec::new();
+        for sz in [66_000usize, 70_000, 79_000] {
+            let mut l = simple_logical(Carrier::Header, 1_440_938_160_000_000_000);
+            l.method = "POST".into();
+            l.fold = true;
+            l.content_type = Some("application/x-www-form-urlencoded".into());
+            l.form = Some(vec![(b"k".to_vec(), vec![b'v'; sz])]);
+            let now = now_for(&l, 0);
+            let s = sign_and_spell(&l, &mut rng, &Spelling::plain(), now);
+            let mut j = job(s.case, Expect::Refuse(Some("MalformedQueryString")), "c13-folded-too-long", "C13: a folded request whose merged URI is too long must be a 400 MalformedQueryString");
+            j.expect_calls = Some(0);
+            jobs.push(j);
+        }
+        let done = run_jobs(ctx, "VALIDATE", jobs);
+        check_status(ctx, done);
+    }
     // (b) defect injection
     let mut masks: Vec<u32> = Vec::new();
     if ctx.thorough {
@@ -648,8 +675,19 @@ pub fn c14(ctx: &mut Ctx) {
         }
     }
     run_jobs(ctx, "VALIDATE", jobs);
-    // every kind of pre-provider defect (and pairs of them), both carriers: the provider must stay untouched
     let mut jobs = Vec::new();
+    // freshness at sub-second resolution: just outside the window must not reach the provider
+    for k in 0..ctx.n(40, 400) {
+        let mut l = simple_logical(if k % 2 == 0 { Carrier::Header } else { Carrier::Query }, 1_440_938_160_000_000_000 + (k as i128 % 5) * 200_000_000);
+        l.time_style = (0, 0, if k % 5 == 0 { 0 } else { 3 });
+        let skew = (900_000_000_000i128 + [1i128, 500_000_000, 999_999_999, 250_000_000][k % 4]) * if k % 3 == 0 { -1 } else { 1 };
+        let now = now_for(&l, skew);
+        let s = sign_and_spell(&l, &mut rng, &Spelling::plain(), now);
+        let mut jb = job(s.case, Expect::Refuse(Some("SignatureDoesNotMatch")), "c14-defective", "C14: a request less than a second outside the freshness window reached the key provider");
+        jb.expect_calls = Some(0);
+        jobs.push(jb);
+    }
+    // every kind of pre-provider defect (and pairs of them), both carriers: the provider must stay untouched
     for carrier in [Carrier::Header, Carrier::Query] {
         for i in 0..12 {
             for j in i..12 {
